@@ -93,9 +93,11 @@ pub fn deserialize_eps_slice_zero<'a, T: ZeroCopy>(
     let len = usize::_deserialize_full_inner(backend)?;
     let bytes = len * core::mem::size_of::<T>();
     backend.align::<T>()?;
-    let (pre, data, after) = unsafe { backend.data[..bytes].align_to::<T>() };
-    debug_assert!(pre.is_empty());
-    debug_assert!(after.is_empty());
+    // SAFETY: the slice is bounds-checked and `align` has just checked the
+    // alignment. Unlike `align_to`, this keeps the length also when `T` is
+    // zero-sized.
+    let data =
+        unsafe { core::slice::from_raw_parts(backend.data[..bytes].as_ptr() as *const T, len) };
     backend.skip(bytes);
     Ok(data)
 }
